@@ -14,6 +14,7 @@ EXPL = ("Decides: (1) SA-PANIC totality: every panic edge in the call-graph clos
 
 def run(ctx):
     cfgs = ["rel", "strict"] if ctx.tier == "quick" else ["rel", "strict", "dbg", "unsafe", "nodef", "unchecked"]
+    ctx.progs(cfgs)  # build all configurations in parallel
     for c in cfgs:
         prog = ctx.prog(c)
         if c != "dbg":
